@@ -17,7 +17,10 @@ definition):
            homogeneous coordinates by x*eps; the control points of that case are constants with |x| < 20)
   witness  far with eps a literal: 1 on a coordinate / weight, 1/4 on a knot
 The side obligation is itself observable: deepcopy(a) == a needs 0 < tol, the far cases need tol <= 1e-3.
-Both shapes of a pair are built with the default precision (the quantifier of the property: shapes as in C01).
+Both shapes of a pair are built with the default precision (the quantifier of the property: shapes as in C01), except
+in `symmetric_mixed_precision`: `precision` is a constructor option of every shape, and "== is symmetric" is claimed for
+all pairs, so a == b and b == a must agree for EVERY size of the single difference when the two objects were built with
+different precisions (the verdict itself is left open there: the statement does not say which tolerance applies).
 """
 import copy
 from fractions import Fraction
@@ -82,12 +85,12 @@ def _data(ctx, kind, rational, symbolic_net=True, deg=None, mult=None, dim=None,
     return dict(kind=kind, rational=rational, deg=list(deg), kvs=kvs, inner=inner, sizes=sizes, P=P, W=W)
 
 
-def _obj(ctx, d, kvs=None, P=None, W=None, pts=None):
+def _obj(ctx, d, kvs=None, P=None, W=None, pts=None, **kw):
     P = d['P'] if P is None else P
     W = d['W'] if W is None else W
     if pts is None:
         pts = spec.weighted(P, W) if d['rational'] else P
-    return _make(ctx, d['kind'], d['rational'], d['deg'], kvs or d['kvs'], d['sizes'], pts)
+    return _make(ctx, d['kind'], d['rational'], d['deg'], kvs or d['kvs'], d['sizes'], pts, **kw)
 
 
 def _verdict(ctx, label, got, want):
@@ -297,3 +300,48 @@ def one_component(ctx, kind, rational, comp, case, full):
             W[i] = W[i] + eps
             ctx.assume(ctx.gt(W[i], 0))
             _pair(ctx, '%s.weight[%d]' % (case, i), a, _obj(ctx, d, W=W), equal)
+
+
+# ------------------------------------------------------------------------------------------------
+def _mixed():
+    out = []
+    for c in _all_classes():
+        for pa, pb in ((18, 2), (3, 6)):
+            for comp in ('knot', 'coord'):
+                out.append(dict(kind=c['kind'], rational=c['rational'], pa=pa, pb=pb, comp=comp))
+    return out
+
+
+@scenario('C19', fns=['abstract.SplineGeometry.__eq__', 'abstract.SplineGeometry.__ne__'], quick=_mixed)
+def symmetric_mixed_precision(ctx, kind, rational, pa, pb, comp):
+    """requires: a built with precision=pa, b with precision=pb, b = a with one interior knot / one homogeneous
+                 coordinate changed by ANY real eps (b valid)
+       ensures : (a == b) == (b == a), (a != b) == (b != a), != is the negation of ==   on every path, i.e. for every
+                 size of eps relative to either tolerance"""
+    d = _data(ctx, kind, rational)
+    eps = ctx.num('eps')
+    a = _obj(ctx, d, precision=pa)
+    if comp == 'knot':
+        dr = 0
+        U = d['kvs'][dr]
+        idx = d['deg'][dr] + 1
+        if idx >= len(U) - d['deg'][dr] - 1:
+            ctx.check_true('no_interior_knot', True)
+            return
+        V = list(U)
+        V[idx] = U[idx] + eps
+        ctx.assume(ctx.lt(V[idx - 1], V[idx]), ctx.lt(V[idx], V[idx + 1]))
+        kvs = list(d['kvs'])
+        kvs[dr] = V
+        b = _obj(ctx, d, kvs=kvs, precision=pb)
+    else:
+        base = spec.weighted(d['P'], d['W']) if rational else [list(p) for p in d['P']]
+        pts = [list(p) for p in base]
+        pts[1][0] = pts[1][0] + eps
+        b = _obj(ctx, d, pts=pts, precision=pb)
+    r_ab, r_ba = _compare(ctx, lambda: a == b), _compare(ctx, lambda: b == a)
+    n_ab, n_ba = _compare(ctx, lambda: a != b), _compare(ctx, lambda: b != a)
+    ctx.check_true('mixed.returns_bool', all(isinstance(r, bool) for r in (r_ab, r_ba, n_ab, n_ba)))
+    ctx.check('mixed.symmetric', ctx.eq(1 if r_ab else 0, 1 if r_ba else 0), 'a==b is %r but b==a is %r' % (r_ab, r_ba))
+    ctx.check('mixed.ne_symmetric', ctx.eq(1 if n_ab else 0, 1 if n_ba else 0), 'a!=b is %r but b!=a is %r' % (n_ab, n_ba))
+    ctx.check_true('mixed.ne_is_not_eq', n_ab == (not r_ab) and n_ba == (not r_ba))
